@@ -7,9 +7,18 @@ import (
 	"os"
 )
 
-// Known-finding classes (see notes/C08.md, /verif/known_findings.json). A failure is tagged with a class only when it has
-// exactly the shape of that class, or is a direct consequence of such an event on the same node; anything else is reported
-// untagged. (Three further classes found by this harness were repaired in /repo: a61f1aeb, db1b9b14 — their oracles are
+// Known-finding classes (see notes/C08.md, /verif/known_findings.json). A failure is tagged with a class only when it shows
+// that class's own MECHANISM (no blanket inheritance from an earlier tagged event on the same node):
+//
+//	lazy load  - a veto let-through while the Status has not loaded (dump.Loaded = false); a LIB / formerly reported LIB that
+//	             is off the main chain because it was among the blocks REPLACED by a reorganisation adopted through that gap
+//	             (node.gaps); a two-node conflict whose fork point lies below a LIB one of the nodes had reported before such
+//	             an adoption;
+//	stale entry - a reported LIB off the main chain that is the pre-LIB of a proposed entry whose confirming block is itself
+//	             off the main chain; "reported earlier, replaced" / a conflict only when the block in question WAS such a
+//	             stale report (node.maxLibStale);
+//
+// anything else is reported untagged. (Three further classes found by this harness were repaired in /repo: a61f1aeb, db1b9b14 — their oracles are
 // plain failures now and their scripted histories A2, A3, A5 are regression tests.)
 const (
 	// Status.load is lazy: between NewStatus (process start) and the first Update the Status holds a fresh
@@ -30,14 +39,25 @@ var classSeen = map[string]int{}
 
 var arrNames = []string{"known", "orphan", "rejected-le-lib", "main", "side", "reorg", "reorg-vetoed"}
 
-// fail: inherit = the failure can be a consequence of a tagged event that already happened on this node (the node adopted a
-// branch through the restart veto gap, or reported a LIB taken from a stale entry): it then carries that class.
-func (n *node) fail(what, class string, inherit bool) {
+// gapAdoption: a reorganisation this node adopted although its branch root lies below a LIB the node had reported, because the
+// Status had not loaded yet (restart veto gap). replaced = the main-chain blocks it removed.
+type gapAdoption struct {
+	rootNo, libBefore uint64
+	replaced          map[*sblk]bool
+}
+
+func (n *node) replacedByGap(b *sblk) bool {
+	for _, g := range n.gaps {
+		if g.replaced[b] {
+			return true
+		}
+	}
+	return false
+}
+
+func (n *node) fail(what, class string) {
 	if n.fault {
 		return
-	}
-	if class == "" && inherit {
-		class = n.taint
 	}
 	n.w.run.Count("fail-class=" + class)
 	n.w.run.Count(fmt.Sprintf("fail-class=%s producers=%d", class, len(n.w.gbps)))
@@ -60,18 +80,16 @@ func (n *node) fail(what, class string, inherit bool) {
 	n.w.run.FailKnown(what, class, n.replay())
 }
 
-// failVeto: a veto function let something at or below a reported LIB through. adopted = the node really reorganised below
-// its reported LIB because of it (not a mere probe).
-func (n *node) failVeto(what string, adopted bool) {
+// failVeto: a veto function let something at or below a reported LIB through. It carries the lazy-load class exactly when the
+// Status had not loaded its saved finality status at that moment; reports whether it did.
+func (n *node) failVeto(what string) bool {
 	class := ""
 	if !n.dump().Loaded {
 		class = classLazyLoad
 		what += " (the Status had not yet loaded its saved finality status: first block activity after a restart)"
-		if adopted && n.taint == "" {
-			n.taint = class
-		}
 	}
-	n.fail(what, class, true)
+	n.fail(what, class)
+	return class != ""
 }
 
 func quorum(size int) int { return size*2/3 + 1 }
@@ -88,20 +106,25 @@ func (n *node) afterArrival(b *sblk, res int) {
 	if !d.Loaded {
 		// no Update since the restart: the Status still holds a fresh libStatus
 		// (consensus info shows no LIB at all in this window; counted, the veto consequences are the oracle's business)
+		if res == arrMain || res == arrReorg {
+			n.fail(fmt.Sprintf("Status.Update ran (arrival of %s: %s) and the Status still has not loaded its finality status", b.name, arrNames[res]), "")
+		}
 		if n.lastNo > 0 {
 			w.run.Count("restart-window-reports-no-lib")
 		}
+		n.neverUndone()
 		return
 	}
 	// monotone
 	if lib.No < n.lastNo {
-		n.fail(fmt.Sprintf("reported LIB number decreased from %d to %d (arrival of %s: %s)", n.lastNo, lib.No, b.name, arrNames[res]), "", false)
+		n.fail(fmt.Sprintf("reported LIB number decreased from %d to %d (arrival of %s: %s)", n.lastNo, lib.No, b.name, arrNames[res]), "")
 	}
 	if lib.No > n.lastNo {
 		w.run.Count("lib-advanced")
 	}
 	// on the main chain
 	var lb *sblk
+	libStale := false
 	if lib.No > 0 || lib.Hash != "" {
 		lb = w.blocks[lib.Hash]
 		if lb == nil || lib.No >= uint64(len(n.main)) || n.main[lib.No] != lb {
@@ -111,13 +134,15 @@ func (n *node) afterArrival(b *sblk, res int) {
 				by := w.blocks[p.By.Hash]
 				if !p.Nil && p.Plib.Hash == lib.Hash && by != nil && (by.no >= uint64(len(n.main)) || n.main[by.no] != by) {
 					class = classStaleEntry
+					libStale = true
 				}
 			}
-			if class != "" && n.taint == "" {
-				n.taint = class
+			// mechanism of the lazy-load class: the LIB block was removed from the main chain by a reorganisation adopted through the gap
+			if class == "" && lb != nil && n.replacedByGap(lb) {
+				class = classLazyLoad
 			}
 			n.fail(fmt.Sprintf("reported LIB %s is not a block of the node's main chain (main chain has %s at %d, best %s)",
-				w.showBI(lib), nameAt(n.main, lib.No), lib.No, n.best.name), class, true)
+				w.showBI(lib), nameAt(n.main, lib.No), lib.No, n.best.name), class)
 		}
 	}
 	// quorum: a new LIB needs blocks of more than two thirds of the producers at or above it
@@ -129,19 +154,35 @@ func (n *node) afterArrival(b *sblk, res int) {
 		size := int(n.cm.Size())
 		if len(seen) < quorum(size) {
 			n.fail(fmt.Sprintf("LIB advanced to %s with blocks of only %d distinct producers at or above it on the main chain; more than 2/3 of %d producers = %d needed",
-				w.showBI(lib), len(seen), size, quorum(size)), "", false)
+				w.showBI(lib), len(seen), size, quorum(size)), "")
 		}
 		w.run.Count(fmt.Sprintf("lib-quorum-margin=%d", len(seen)-quorum(size)))
 	}
 	// never undone: the highest LIB ever reported is still on the main chain
 	if lib.No > n.maxLib.no && lb != nil {
 		n.maxLib = libRef{b: lb, no: lib.No}
+		n.maxLibStale = libStale
 	}
-	if n.maxLib.b != nil && (n.maxLib.no >= uint64(len(n.main)) || n.main[n.maxLib.no] != n.maxLib.b) {
-		n.fail(fmt.Sprintf("block %s (no %d), reported as LIB earlier, was replaced on the main chain (now %s)",
-			n.maxLib.b.name, n.maxLib.no, nameAt(n.main, n.maxLib.no)), "", true)
-	}
+	n.neverUndone()
 	n.lastNo = lib.No
+}
+
+// neverUndone: evaluated after every arrival, also in the restart window.
+func (n *node) neverUndone() {
+	if n.fault || n.maxLib.b == nil {
+		return
+	}
+	if n.maxLib.no >= uint64(len(n.main)) || n.main[n.maxLib.no] != n.maxLib.b {
+		class := ""
+		switch {
+		case n.maxLibStale: // it never was on the main chain: the stale report itself
+			class = classStaleEntry
+		case n.replacedByGap(n.maxLib.b):
+			class = classLazyLoad
+		}
+		n.fail(fmt.Sprintf("block %s (no %d), reported as LIB earlier, was replaced on the main chain (now %s)",
+			n.maxLib.b.name, n.maxLib.no, nameAt(n.main, n.maxLib.no)), class)
+	}
 }
 
 func nameAt(main []*sblk, no uint64) string {
@@ -156,8 +197,8 @@ func agreement(w *world, nodes []*node, replay func() interface{}) {
 	agreementWith(w, nodes, replay, "")
 }
 
-// agreementWith: untainted = the class of a conflict between two nodes neither of which carries a tagged event ("" everywhere
-// except in the scripted history A6).
+// agreementWith: untainted = the class of a conflict that shows the mechanism of neither the stale-entry nor the lazy-load class
+// ("" everywhere except in the scripted history A6).
 func agreementWith(w *world, nodes []*node, replay func() interface{}, untainted string) {
 	for i := 0; i < len(nodes); i++ {
 		for j := i + 1; j < len(nodes); j++ {
@@ -166,11 +207,20 @@ func agreementWith(w *world, nodes []*node, replay func() interface{}, untainted
 				continue
 			}
 			if !a.isAncestorOf(b) && !b.isAncestorOf(a) {
-				// attributable to a known class only if one of the two nodes really adopted a branch below its reported LIB through
-				// the restart veto gap, or really reported a LIB taken from a stale entry (node.taint is set by those two events only)
-				class := nodes[i].taint
-				if class == "" {
-					class = nodes[j].taint
+				// attributable to a known class only through that class's mechanism: one of the two blocks WAS a stale report; or the
+				// conflict's fork point lies below a LIB one of the nodes had reported before it adopted a branch through the restart gap
+				class := ""
+				if nodes[i].maxLibStale || nodes[j].maxLibStale {
+					class = classStaleEntry
+				} else {
+					f := forkNo(a, b)
+					for _, nd := range []*node{nodes[i], nodes[j]} {
+						for _, g := range nd.gaps {
+							if f < g.libBefore {
+								class = classLazyLoad
+							}
+						}
+					}
 				}
 				if class == "" {
 					class = untainted
@@ -187,4 +237,19 @@ func agreementWith(w *world, nodes []*node, replay func() interface{}, untainted
 			}
 		}
 	}
+}
+
+// forkNo: the number of the last common ancestor of a and b.
+func forkNo(a, b *sblk) uint64 {
+	for a != b {
+		if a.no >= b.no {
+			a = a.prev
+		} else {
+			b = b.prev
+		}
+		if a == nil || b == nil {
+			return 0
+		}
+	}
+	return a.no
 }
